@@ -323,6 +323,32 @@ def rule_field_coverage(ctx, rep):
         rep.check(got == want, R, 'DigitString::' + name, 'reads %s' % sorted(got),
                   '%s reads %s, expected %s: the zero count is %s the rendered value' % (
                       name, sorted(got), sorted(want), 'missing from' if got < want else 'wrongly part of'), f.loc(x.m['sp']))
+    # exact value shapes: the zero count is part of length, emptiness and rendering
+    from ..paths import Q
+    shapes = {
+        'len': (['(Vec::len(self.buffer) + self.leading_zeroes)'], None),
+        'is_empty': (['(0 == self.leading_zeroes)', 'false'], {'(0 == self.leading_zeroes)': 'Vec::is_empty(self.buffer)', 'false': '!Vec::is_empty(self.buffer)'}),
+        'to_string': (['res'], None),
+    }
+    for name, (want_rets, want_facts) in shapes.items():
+        x = _x(ctx, '%s::%s' % (DS, name))
+        if x is None:
+            continue
+        qq = Q(x)
+        rets = qq.return_values()
+        got = sorted(v for _b, v in rets)
+        ok = got == sorted(want_rets)
+        if ok and want_facts:
+            ok = all(want_facts[v] in qq.facts(b) for b, v in rets)
+        if ok and name == 'to_string':
+            calls = [d for _b, _n, d, _t in qq.all_calls()]
+            ok = calls == ['str::repeat("0", self.leading_zeroes)', 'Vec::as_slice(self.buffer)', 'converts::from_utf8(Vec::as_slice(self.buffer))',
+                           'Result::unwrap(converts::from_utf8(Vec::as_slice(self.buffer)))',
+                           'String::push_str(res, Result::unwrap(converts::from_utf8(Vec::as_slice(self.buffer))))']
+            got = calls
+        rep.check(ok, R, 'shape|DigitString::' + name, 'value is built from the buffer and the zero count as documented',
+                  '%s computes %s: leading zeros are not part of the %s as documented' % (name, got, {'len': 'length', 'is_empty': 'emptiness test', 'to_string': 'rendering'}[name]),
+                  f.loc(x.m['sp']))
     # parser reset
     pr = "word_to_digit::WordToDigitParser::<'a, T>::reset"
     x = _x(ctx, pr)
